@@ -266,68 +266,18 @@ Definition format_excel_f64_ref (bits : N) (format : option cell_format) (is_190
   end.
 
 (* ====================================================================================== *)
-(*      the hardened A1 scanner and Range::from_sparse (C06 hardening commits in /repo)      *)
+(*      the A1 scanner (Col26.v) and the hardened Range::from_sparse                        *)
 (* ====================================================================================== *)
-(* Col26.v and Range.v mirror these two functions as they were BEFORE the hardening (u32
-   arithmetic that panics on overflow; rows taken from the first / last cell).  The current code
-   is modelled here; XlsxSheet_proofs.v shows that the two generations agree wherever the old one
-   does not fail, which is how the round-trip theorems of Col26_proofs.v and C05_from_sparse_spec
-   keep serving. *)
-Definition sat64 (x : N) : N := N.min x U64MAX.                 (* u64 saturating_add / _mul *)
+(* get_row_and_optional_column / get_row / get_row_column / get_dimension as of the C06 hardening
+   (u64 saturating arithmetic, u32::try_from -> error, no subtraction in get_dimension) are
+   Col26.get_row_and_optional_column / get_row / get_row_column / get_dimension: Col26.v was
+   resynced to that code, so the local copy (the _x scanner) that stood here is gone; [sat64] is
+   Col26's too.
+   Range::from_sparse after the hardening is modelled here as [from_sparse_x] (total: bounds =
+   min / max over all cells); XlsxSheet_proofs.from_sparse_x_eq ties it to Range.from_sparse on
+   row-sorted, bounded cells, which is how C05_from_sparse_spec serves.  (Range.v has been resynced
+   to the hardened code as well; this second copy still stands and could be folded into it.) *)
 Definition E_OUT_OF_RANGE : N := 14.                            (* Unexpected("… out of range") *)
-
-Definition xscan_letter (base c : N) (s : scan_state) : outcome scan_state :=
-  do s1 <- (if s_readrow s then
-              if s_row s =? 0 then Err E_NO_ROW
-              else Ok {| s_row := s_row s; s_col := s_col s; s_pow := 1; s_readrow := false |}
-            else Ok s);
-  Ok {| s_row := s_row s1;
-        s_col := sat64 (s_col s1 + sat64 ((c - base + 1) * s_pow s1));
-        s_pow := sat64 (s_pow s1 * 26); s_readrow := false |}.
-
-Definition xscan_char (c : N) (s : scan_state) : outcome scan_state :=
-  if is_digit c then
-    if s_readrow s then
-      Ok {| s_row := sat64 (s_row s + sat64 ((c - ch_0) * s_pow s)); s_col := s_col s;
-            s_pow := sat64 (s_pow s * 10); s_readrow := true |}
-    else Err E_NUMERIC_COLUMN
-  else if is_upper c then xscan_letter ch_A c s
-  else if is_lower c then xscan_letter ch_a c s
-  else Err E_ALPHANUMERIC.
-
-Fixpoint xscan_loop (rs : list N) (s : scan_state) : outcome scan_state :=
-  match rs with
-  | [] => Ok s
-  | c :: t => do s' <- xscan_char c s; xscan_loop t s'
-  end.
-
-Definition get_row_and_optional_column_x (range : list N) : outcome (N * option N) :=
-  do s <- xscan_loop (rev range) scan_init;
-  if s_row s =? 0 then Err E_NO_ROW                              (* row.checked_sub(1) *)
-  else if U32MAX <? s_row s - 1 then Err E_OUT_OF_RANGE          (* u32::try_from(row) *)
-  else if s_col s =? 0 then Ok (s_row s - 1, None)
-  else if U32MAX <? s_col s - 1 then Err E_OUT_OF_RANGE
-  else Ok (s_row s - 1, Some (s_col s - 1)).
-
-Definition get_row_column_x (range : list N) : outcome (N * N) :=
-  do rc <- get_row_and_optional_column_x range;
-  match snd rc with Some c => Ok (fst rc, c) | None => Err E_NO_COLUMN end.
-Definition get_row_x (range : list N) : outcome N :=
-  do rc <- get_row_and_optional_column_x range; Ok (fst rc).
-
-Fixpoint collect_parts_x (ps : list (list N)) : outcome (list (N * N)) :=
-  match ps with
-  | [] => Ok []
-  | p :: t => do x <- get_row_column_x p; do xs <- collect_parts_x t; Ok (x :: xs)
-  end.
-(* rows / columns are only computed for a warning, with saturating_sub *)
-Definition get_dimension_x (dimension : list N) : outcome ((N * N) * (N * N)) :=
-  do parts <- collect_parts_x (split_on ch_colon dimension []);
-  match parts with
-  | [p] => Ok (p, p)
-  | [p0; p1] => Ok (p0, p1)
-  | _ => Err E_DIMENSION_COUNT
-  end.
 
 (* Range::from_sparse: bounds = min / max over all cells; no arithmetic can fail any more
    (max >= min on a non-empty list; usize is 64 bits: (hi - lo) + 1 <= 2^32 and the products of
@@ -537,13 +487,13 @@ Definition cells_step (en : env) (st : sh_state) (e : event) : sh_res :=
     | Start n a =>
       if is_local n_row n then
         match get_attribute a a_r with
-        | Some range => lift_sh (do r <- get_row_x range; Ok (ShOuter r col))
+        | Some range => lift_sh (do r <- get_row range; Ok (ShOuter r col))
         | None => SCont st
         end
       else if is_local n_c n then
         match get_attribute a a_r with
         | Some range =>
-            lift_sh (do rc <- get_row_column_x range;
+            lift_sh (do rc <- get_row_column range;
                      Ok (ShCell row (snd rc) rc a (CcOuter REmpty)))      (* self.col_index = col *)
         | None => SCont (ShCell row col (row, col) a (CcOuter REmpty))
         end
@@ -595,7 +545,7 @@ Fixpoint reader_new_loop (sh_type : bool) (d : dims) (evs : list event)
   | Start n a :: rest =>
       if is_local n_dimension n then
         match get_attribute a a_ref with
-        | Some rdim => do d' <- get_dimension_x rdim; reader_new_loop sh_type d' rest
+        | Some rdim => do d' <- get_dimension rdim; reader_new_loop sh_type d' rest
         | None => Err E_NODE
         end
       else if is_local n_sheetData n then Ok (d, rest)
